@@ -3,14 +3,26 @@ configuration on the process pool, replay a witness history."""
 from .. import core, kdriver
 
 
-def make_run(modname, observe_name, include_invalid=False):
+def long_comment_ops(cfg, model):
+    """add_block with a comment that is one byte too long: must be refused; if an implementation
+    accepts it the structural invariants still have to hold afterwards."""
+    if len(model.live) >= model.n:
+        return []
+    return [("add", t, 0, 3) for t in cfg.types if t not in model.live][:1]
+
+
+def unused_ops(cfg, model):
+    return [("add_unused",), ("remove_unused",)] if len(model.live) < model.n else []
+
+
+def make_run(modname, observe_name, include_invalid=False, extra_ops=None):
     def _shard(cfg_w):
         import importlib
 
         mod = importlib.import_module(modname)
         cfg = kdriver.Config.from_witness(cfg_w)
         acc = core.Acc()
-        kdriver.explore(cfg, getattr(mod, observe_name), acc, include_invalid=include_invalid)
+        kdriver.explore(cfg, getattr(mod, observe_name), acc, include_invalid=include_invalid, extra_ops=extra_ops)
         return acc
 
     return _shard
@@ -38,14 +50,14 @@ def sig(prop, clause, op, cfg, extra=""):
     return f"{prop}:{clause}:{kind}{how}:N{cfg.n}{(':' + extra) if extra else ''}"
 
 
-def make_chain_run(modname, observe_name):
+def make_chain_run(modname, observe_name, extra_ops=None):
     def _chain(cfg_w):
         import importlib
 
         mod = importlib.import_module(modname)
         cfg = kdriver.Config.from_witness(cfg_w)
         acc = core.Acc()
-        kdriver.explore_chains(cfg, getattr(mod, observe_name), acc, depth=3)
+        kdriver.explore_chains(cfg, getattr(mod, observe_name), acc, depth=3, extra_ops=extra_ops)
         return acc
 
     return _chain
@@ -57,8 +69,8 @@ def chain_configs(tier, deep=False):
     out = [c for c in kdriver.configs(tier) if c.n <= 2 and c.nvar <= 2][:3 if tier == "quick" else 8]
     if deep:
         tr = env_rotate()
-        out.append(kdriver.Config("chain-N3", 3, [], tr[0], 1))
-        out.append(kdriver.Config("chain-N14-new", 14, "new", tr[1][:2], 1))
+        out.append(kdriver.Config("chain-N3", 3, [], tr[0], 1, edited=True))
+        out.append(kdriver.Config("chain-N14-new", 14, "new", tr[1][:2], 1, edited=True))
         if tier == "thorough":
             out.append(kdriver.Config("chain-N4-opaque", 4, [kdriver.opaque_record(1)], tr[2], 1, junk=True))
     return out
